@@ -4,7 +4,7 @@
 # against it (KNEE_REPO), print one line per (seed, check): PASS / VIOLATIONS / MACHINERY FAILURE.
 HERE="$(cd "$(dirname "$0")/.." && pwd)"
 cd "$HERE"
-NAMES="$@"; [ -z "$NAMES" ] && NAMES=$(ls seeded)
+NAMES="$@"; [ -z "$NAMES" ] && NAMES=$(ls seeded | grep -v "^_")
 IDS=$(python3 -c "import json;print(' '.join(c['property_id'] for c in json.load(open('MANIFEST.json'))['checks']))")
 for s in $NAMES; do
   D=$(mktemp -d /tmp/knee_matrix.XXXXXX)
